@@ -31,7 +31,9 @@ def c_challenge_b64_alias(s, r):
     else:
         s.sign_challenge = authsim.b64u(s.challenge).encode()
 def c_algs_empty(s, r): s.algs = r.choice([[], ()])      # an explicitly empty allowed list allows nothing
-def c_origin_other(s, r): _keep_expected(s); s.origin = r.choice(["https://evil.example", "https://example.com.evil.test"])
+def c_origin_other(s, r):
+    _keep_expected(s); s.origin = r.choice(["https://evil.example", "https://example.com.evil.test"]); authcat._l3_decoys(s, r)
+def c_origin_alias(s, r): authcat.f_origin_alias(s, r)
 def c_origin_substring(s, r):
     s.exp_origin = "https://example.com:8443"
     s.origin = r.choice(["https://example.com", "example.com:8443", "https://example.com:844", ""])
@@ -39,7 +41,11 @@ def c_origin_list_absent(s, r): s.exp_origin = ["https://a.example", "https://b.
 def c_token_binding(s, r): s.token_binding = {"status": r.choice(["not-supported", "unknown", ""])}
 def c_rp_other(s, r): s.rp_id, s.sign_rp_id = r.choice(authcat.RP_ALIASES)
 def c_up_clear(s, r): s.flags &= ~0x01; s.require_up = True
-def c_uv_clear(s, r): s.flags &= ~0x04; s.require_uv = True
+def c_uv_clear(s, r):
+    s.flags &= ~0x04; s.require_uv = True
+    if r.random() < 0.7:
+        s.flags |= 0x80
+        s.ext = cbor2.dumps(r.choice([{"uvm": [[2, 4, 2]]}, {"uvm": [[2, 4, 2], [4, 4, 2]]}, {"credProtect": 3, "uvm": [[2, 10, 4]]}, {"userVerified": True}]))
 def c_no_attested(s, r): s.flags &= ~0x40
 def c_empty_cred_id(s, r): s.cred_id = b""
 def c_alg_not_allowed(s, r):
@@ -56,7 +62,7 @@ def c_unknown_fmt(s, r): s.k["fmt_override"] = r.choice(["bogus", "Packed", "non
 def c_bs_without_be(s, r): s.flags = (s.flags | 0x10) & ~0x08
 
 CEREMONY = {
-    "challenge-base64url-alias": c_challenge_b64_alias, "allowed-algorithms-empty": c_algs_empty,
+    "origin-alias-spelling": c_origin_alias, "challenge-base64url-alias": c_challenge_b64_alias, "allowed-algorithms-empty": c_algs_empty,
     "cd-type": c_type, "challenge-other": c_challenge_other, "challenge-trunc": c_challenge_trunc, "origin-other": c_origin_other,
     "origin-substring": c_origin_substring, "origin-list-absent": c_origin_list_absent, "token-binding-status": c_token_binding,
     "rp-id-other": c_rp_other, "up-clear-required": c_up_clear, "uv-clear-required": c_uv_clear, "no-attested-data": c_no_attested,
@@ -175,7 +181,9 @@ def tpm_extra_hash(s, r):
 def tpm_signed_other_cert_info(s, r): s.k["tpm_signed_cert_info"] = b"\xff\x54\x43\x47\x80\x17" + bytes(60)
 def tpm_subject(s, r): s.k["tpm_subject"] = regsim.name("AIK")
 def tpm_san_absent(s, r): s.k["tpm_san"] = None
-def tpm_san_unknown_vendor(s, r): s.k["tpm_manufacturer"] = r.choice(["id:FFFFFFF0", "id:414d4400", "414D4400", "id:414D440"])
+def tpm_san_unknown_vendor(s, r):
+    # not in the TCG vendor-id registry (incl. the id the FIDO conformance tools use, test ids, near misses of registered ids)
+    s.k["tpm_manufacturer"] = r.choice(["id:FFFFFFF0", "id:414d4400", "414D4400", "id:414D440", "id:FFFFF1D0", "id:00000000", "id:FFFFFFFF", "id:414D4401", "id:494E5444", "ID:414D4400"])
 def tpm_san_no_model(s, r): s.k["tpm_san"] = [("2.23.133.2.1", "id:414D4400"), ("2.23.133.2.3", "id:00010002")]
 def tpm_eku_wrong(s, r): s.k["tpm_eku"] = r.choice([["2.23.133.8.1"], ["1.3.6.1.5.5.7.3.2", "2.23.133.8.3"]])
 def tpm_eku_absent(s, r): s.k["tpm_eku"] = None
@@ -190,6 +198,13 @@ def ak_sig_other_key(s, r): s.k["att_signer"] = Cred(s.kind, slot=5)
 def sn_sig_other_key(s, r): s.k["sn_signer"] = regsim.rsa_key("safetynet_other")
 def sn_two_parts(s, r): s.k["sn_jws"] = lambda h, p, sg: (h + "." + p).encode()
 def sn_four_parts(s, r): s.k["sn_jws"] = lambda h, p, sg: (h + "." + p + "." + sg + ".x").encode()
+
+def alg_es384_really_signed(s, r):
+    # alg -35 (ES384) is not an algorithm the library registers; the statement is nevertheless signed exactly as ES384 prescribes (P-384 key, SHA-384),
+    # with extraData still hashed with SHA-256
+    s.att_kind = "ES256-P384"
+    s.k["att_scheme"] = "ECDSA-SHA384"
+    stmt_set("alg", -35)(s, r)
 
 def tpm_alg_foreign(alg):
     # the statement names an algorithm the (RSA / EC) attestation key cannot have made the signature with; Ed25519 attestation keys are
@@ -215,6 +230,7 @@ FORMAT_FAULTS = {
     "packed": {
         "signed-by-other-key": att_other_key, "signed-other-authdata": signed_other_ad, "signed-other-clientdata": signed_other_cdh,
         "wrong-scheme": att_wrong_scheme, "sig-missing": stmt_drop("sig"), "alg-missing": stmt_drop("alg"), "alg-zero": stmt_set("alg", 0),
+        "alg-es384-genuinely-signed-with-sha384": alg_es384_really_signed,
     },
     "fido-u2f": {
         "two-certificates": set_k(u2f_two_certs=True), "nonzero-aaguid": set_k(aaguid=bytes([0] * 15 + [1])), "leaf-p384": u2f_curve(ec.SECP384R1),
@@ -236,7 +252,7 @@ FORMAT_FAULTS = {
         "aik-subject-not-empty": tpm_subject, "aik-san-absent": tpm_san_absent, "aik-unknown-vendor": tpm_san_unknown_vendor, "aik-san-no-model": tpm_san_no_model,
         "aik-eku-wrong": tpm_eku_wrong, "aik-eku-absent": tpm_eku_absent, "aik-ca-true": tpm_bc_ca, "aik-basic-constraints-absent": tpm_bc_absent,
         "ecc-curve-unmappable": set_k(tpm_curve=0x0001), "name-alg-unmappable": set_k(tpm_name_alg_raw="SM3_256"),
-        "alg-unregistered-es384": tpm_alg_foreign(-35), "alg-unregistered-es256k": tpm_alg_foreign(-47), "alg-of-other-family-eddsa": tpm_alg_foreign(-8),
+        "alg-es384-genuinely-signed-with-sha384": alg_es384_really_signed, "alg-unregistered-es384": tpm_alg_foreign(-35), "alg-unregistered-es256k": tpm_alg_foreign(-47), "alg-of-other-family-eddsa": tpm_alg_foreign(-8),
         "sig-missing": stmt_drop("sig"), "certinfo-missing": stmt_drop("certInfo"), "pubarea-missing": stmt_drop("pubArea"), "alg-missing": stmt_drop("alg"), "x5c-missing": stmt_drop("x5c"),
     },
     "apple": {
@@ -261,6 +277,8 @@ FORMAT_FAULTS = {
         "signed-by-other-key": sn_sig_other_key, "signed-other-input": set_k(sn_signed_input=b"e30.e30"), "jws-two-parts": sn_two_parts,
         "jws-four-parts": sn_four_parts, "timestamp-old": set_k(sn_timestamp=(T0 - 3600) * 1000), "timestamp-future": set_k(sn_timestamp=(T0 + 3600) * 1000),
         "ver-missing": stmt_drop("ver"), "response-missing": stmt_drop("response"),
+        "timestamp-infinity": set_k(sn_timestamp=float("inf")), "timestamp-minus-infinity": set_k(sn_timestamp=float("-inf")), "timestamp-1e300": set_k(sn_timestamp=1e300),
+        "timestamp-nan": set_k(sn_timestamp=float("nan")), "timestamp-old-cts-false": set_k(sn_timestamp=(T0 - 3600) * 1000, sn_cts=False),
     },
 }
 # entries that make an inner structure MALFORMED (not a well-formed response rejected for a semantic reason): C19 does not demand a
@@ -300,6 +318,15 @@ def ch_attacker_ca_first(s, r):
     cert = regsim.make_cert(regsim.name("Attacker CA"), regsim.name("Attacker CA"), ak.public_key(), ak, ca=True)
     s.k["x5c_override"] = lambda pki, leaf: [regsim.der(cert)] + pki.chain_der(leaf)
     s.k["att_signer"] = type("K", (), {"sk": ak, "alg": -7, "sign": staticmethod(lambda msg, scheme=None: ak.sign(msg, ec.ECDSA(hashes.SHA256())))})()
+def ch_surrogate_self_signed(s, r):
+    # "surrogate basic attestation": x5c = one self-signed certificate over the CREDENTIAL key, statement signed with the credential key.
+    # With anchors in force it chains to none of them.
+    c = Cred(s.kind)
+    cert = regsim.make_cert(regsim.name("Surrogate"), regsim.name("Surrogate"), c.pk, c.sk, ca=False)
+    s.k["x5c_override"] = lambda pki, leaf: [regsim.der(cert)]
+    s.k["att_signer"] = c
+    s.k["att_alg"] = c.alg
+    s.k["att_scheme"] = c.scheme
 def ch_pinned_leaf_expired(s, r):
     s.roots_mode = r.choice(["pin-leaf", "pin-leaf-and-root"]); s.k["leaf_nb"], s.k["leaf_na"] = T0 - 400 * DAY, T0 - 1
 def ch_pinned_selfsigned_leaf_expired(s, r):
@@ -315,10 +342,10 @@ CHAIN_FAULTS = {
     "not-yet-valid-root": ch_future_root, "corrupted-signature": ch_bad_signature, "missing-intermediate": ch_missing_inter,
     "non-ca-intermediate": ch_non_ca_inter,
     "attacker-ca-first-genuine-chain-as-intermediates": ch_attacker_ca_first,
-    "pinned-leaf-expired": ch_pinned_leaf_expired, "pinned-leaf-not-yet-valid": ch_pinned_leaf_future,
+    "self-signed-certificate-over-the-credential-key": ch_surrogate_self_signed, "pinned-leaf-expired": ch_pinned_leaf_expired, "pinned-leaf-not-yet-valid": ch_pinned_leaf_future,
 }
 # chain faults whose no-anchor (pass-through) variant is not simply "accepted"
-NO_PASSTHROUGH_VARIANT = {"impostor-root-same-name", "attacker-ca-first-genuine-chain-as-intermediates"}
+NO_PASSTHROUGH_VARIANT = {"impostor-root-same-name", "attacker-ca-first-genuine-chain-as-intermediates", "self-signed-certificate-over-the-credential-key"}
 
 
 def applicable_kinds(fmt):
